@@ -75,12 +75,13 @@ struct Ctx
 	do                                                                                                            \
 	{                                                                                                             \
 		double _g = (double) (got), _r = (double) (ref), _t = (double) (tol);                                      \
+		const char* _nm = (name);                                                                                 \
 		double _e = std::fabs(_g - _r);                                                                           \
 		bool _ok  = (_g == _r) || (_e <= _t);                                                                     \
 		if(_t > 0 && _e == _e)                                                                                    \
-			(c).ratio(name, _e / _t);                                                                             \
+			(c).ratio(_nm, _e / _t);                                                                            \
 		if(!_ok)                                                                                                  \
-			VFAIL("CLOSE FAILED [" << name << "] at " << __FILE__ << ":" << __LINE__ << ": got=" << _g << " ref=" << _r \
+			VFAIL("CLOSE FAILED [" << _nm << "] at " << __FILE__ << ":" << __LINE__ << ": got=" << _g << " ref=" << _r \
 								   << " |diff|=" << _e << " tol=" << _t << " :: " << expr);                        \
 	} while(0)
 
@@ -189,6 +190,10 @@ extern const char* const kPropertyId;
 // ---- known findings ----------------------------------------------------------------------------------------------
 // true iff /verif/known_findings.jsonl lists an OPEN finding with this id (generators then exclude its matcher region)
 bool finding_open(const char* id);
+
+// ---- helper: evaluate f in a forked child of the current process (pristine copy of the library's static state) ----------
+// returns false if the child crashed, exited or did not answer within timeout_s
+bool run_in_child(const std::function<std::vector<double>()>& f, std::vector<double>& result, double timeout_s = 20.0);
 
 // ---- small numeric helpers -----------------------------------------------------------------------------------------
 constexpr double EPS = 2.220446049250313e-16;
